@@ -612,7 +612,9 @@ def _alpha_255(ctx, hfn):
         if len(its) != 1:
             return False, 'the colour components have %d initialisers' % len(its), ctors[0].get('ln')
         arr = strip(its[0])
-    if not (isinstance(arr, dict) and arr.get('k') == 'array' and len(arr.get('es', [])) == 4 and K(255).m(ctx, arr['es'][3])):
+    is_rep = isinstance(arr, dict) and arr.get('k') == 'repeat' and K(255).m(ctx, arr.get('e')) and \
+        (arg.get('ty') or '') == '[u8; 4]'                      # `[255; 4]`
+    if not is_rep and not (isinstance(arr, dict) and arr.get('k') == 'array' and len(arr.get('es', [])) == 4 and K(255).m(ctx, arr['es'][3])):
         return False, 'the fourth colour component is not the constant 255', ctors[0].get('ln')
     if name is None:
         return True, '', ctors[0].get('ln')
@@ -627,6 +629,10 @@ def _alpha_255(ctx, hfn):
             # channels.iter_mut() .. .take(3): only the first three are handed out mutably
             if par.get('k') == 'mcall' and par.get('name') == 'iter_mut':
                 if any(a.get('k') == 'mcall' and a.get('name') == 'take' and a.get('args') and K(3).m(ctx, a['args'][0]) for a in anc):
+                    return
+                # zipped with exactly three things: `channels.iter_mut().zip(rgb)` with `rgb: [&str; 3]`
+                if any(a.get('k') == 'mcall' and a.get('name') == 'zip' and a.get('args') and
+                       (strip(a['args'][0]).get('ty') or '').endswith('; 3]') for a in anc):
                     return
             if par.get('k') == 'mcall' and par.get('name') in ('iter', 'len', 'as_slice') and strip(par.get('recv')) is n:
                 return
@@ -2467,8 +2473,14 @@ def _interp_table(ctx, hfn, parts_only=None):
     def classify(c):
         if c[0] == 'pat':
             pat = c[1]
-            if 'Some' in repr(pat) and M('get', PATH, I).m(ctx, c[2]):
+            if 'Some' in repr(pat)[:400] and M('get', PATH, I).m(ctx, c[2]):
                 return ('some', True)
+            if "'None'" in repr(pat)[:400] and M('get', PATH, I).m(ctx, c[2]):
+                return ('some', False)
+            if 'Some' in repr(pat)[:400] and M('first', PATH).m(ctx, c[2]):
+                return ('empty', False)
+            if "'None'" in repr(pat)[:400] and M('first', PATH).m(ctx, c[2]):
+                return ('empty', True)
             p0 = pat
             while isinstance(p0, dict) and p0.get('k') == 'pref':
                 p0 = p0['p']
